@@ -537,11 +537,18 @@ fn crash_one(ctx: &Ctx, compression: bool, hist: &[Op]) -> Report {
 }
 
 fn bfs_files(ctx: &Ctx, compression: bool, depth: usize, report: &mut Report) {
+    bfs_files_from(ctx, compression, &[], depth, report)
+}
+
+/// the search started from the state `prefix` reaches (start from non-initial states too: here a
+/// head file that was rolled over to inside this process and already holds two items)
+fn bfs_files_from(ctx: &Ctx, compression: bool, prefix: &[Op], depth: usize, report: &mut Report) {
     let mut seen: HashSet<u64> = HashSet::new();
-    let mut frontier: Vec<(Vec<Op>, usize)> = vec![(vec![], 0)];
+    let mut frontier: Vec<(Vec<Op>, usize)> = vec![];
     {
-        let e = explore_one(ctx, compression, vec![]);
+        let e = explore_one(ctx, compression, prefix.to_vec());
         seen.insert(e.state_fp);
+        frontier.push((prefix.to_vec(), e.n_items));
         report.merge(e.report);
     }
     for d in 1..=depth {
@@ -826,7 +833,7 @@ pub fn meta(tier: Tier) -> Meta {
     Meta {
         id: "C09",
         level: "fault_enumeration",
-        rule: "BFS over all histories of {Append(size), Truncate(k), Sync, Reopen} on the real FreezerFiles (max_file_size=40, compression off and on), states deduplicated by on-disk image + last-synced marks; for every new state every crash image: head data file cut to every byte length in [synced, final] (or absent / 0..final when the head rolled over since the last sync) x INDEX cut to every byte length in [synced, final]; each image is reopened with the real repair code and judged against the reference item list. Files the head has left behind since the last sync point are covered by what the process itself is OBSERVED to fsync (the executable interposes fsync / fdatasync and records the file size at every completed call): a left-behind file whose last observed fsync covers less than its final size is additionally cut back into the uncovered part (with the newer files and the index complete). Second family: the same through Freezer::{open,freeze,retrieve,truncate} on real packed blocks with a 700-byte file limit. A case is non-trivial iff the image is torn (at least one of the two files shorter than final); distinct = distinct (history, cut).",
+        rule: "BFS over all histories of {Append(size), Truncate(k), Sync, Reopen} on the real FreezerFiles (max_file_size=40, compression off and on), states deduplicated by on-disk image + last-synced marks; for every new state every crash image: head data file cut to every byte length in [synced, final] (or absent / 0..final when the head rolled over since the last sync) x INDEX cut to every byte length in [synced, final]; each image is reopened with the real repair code and judged against the reference item list. A second search starts from the state after Append(39) Append(13) Append(13) (a head file the process has rolled over to, holding two items; depth 2, thorough 4). Files the head has left behind since the last sync point are covered by what the process itself is OBSERVED to fsync (the executable interposes fsync / fdatasync and records the file size at every completed call): a left-behind file whose last observed fsync covers less than its final size is additionally cut back into the uncovered part (with the newer files and the index complete). Second family: the same through Freezer::{open,freeze,retrieve,truncate} on real packed blocks with a 700-byte file limit. A case is non-trivial iff the image is torn (at least one of the two files shorter than final); distinct = distinct (history, cut).",
         assumptions: &[
             "only the head data file and INDEX are torn (as the property's quantifier states); older data files are intact",
             "truncate and reopen are treated as sync points",
@@ -851,6 +858,8 @@ pub fn run(ctx: &Ctx) -> Report {
     let (depth, fdepth) = depths(ctx.tier);
     let t = std::time::Instant::now();
     bfs_files(ctx, false, depth, &mut report);
+    // from a head file rolled over to inside this process that holds two items
+    bfs_files_from(ctx, false, &[Op::Append(39), Op::Append(13), Op::Append(13)], if ctx.tier.is_thorough() { 4 } else { 2 }, &mut report);
     report.count("wall_ms_files_nocompress", t.elapsed().as_millis() as u64);
     let t = std::time::Instant::now();
     bfs_files(ctx, true, depth, &mut report);
